@@ -20,3 +20,43 @@ def declare(spec):
         modifies=[],
         must_fail=['result >= 2', 'forall(INT, lambda y: implies(1 <= y and y <= result, exists(INT, lambda k: k in self.processes and self.processes[k].wid == y)))'],
     ))
+
+    # ---- events (ghost evlog: one entry per message actually handed to the PUB socket)
+    spec.add(Contract('$PubSocket.send_multipart', params={'self': Ref('PubSocket'), 'parts': VAL},
+                      trusted=True, modifies=[], raises={'ZMQError': []},
+                      note='T-ZMQ: delivers the message or raises ZMQError; the ghost evlog entry is '
+                           'attached at this call by Watcher.notify_event (ghost_at)'))
+    spec.add(Contract('zmq.utils.jsonapi:dumps', params={'o': VAL}, ret=BYTES, trusted=True, modifies=[],
+                      raises={'TypeError': []}, note='T-STDLIB json.dumps: bytes or TypeError'))
+    spec.pred('msg_int', [('msg', Dict(STR, VAL)), ('k', STR)],
+              "ite(k in msg and is_int(msg[k]), as_int(msg[k]), -1)", ret=INT)
+    spec.add(Contract(
+        'circus.watcher:Watcher.notify_event', params={'topic': STR, 'msg': Dict(STR, VAL)},
+        requires=[],
+        ensures=["implies(not isnull(self.evpub_socket) and not self.evpub_socket.closed, "
+                 "length(evlog) == length(old(evlog)) + 1 and last(evlog) == "
+                 "pubev(ref_id(self), topic, msg_int(msg, 'process_pid'), msg_int(msg, 'exit_code')))",
+                 "forall(INT, lambda i: implies(0 <= i and i < length(old(evlog)), evlog[i] == old(evlog)[i]))",
+                 "implies(isnull(self.evpub_socket) or self.evpub_socket.closed, evlog == old(evlog))"],
+        raises={'ZMQError': ['evlog == old(evlog)'], 'TypeError': ['evlog == old(evlog)']},
+        modifies=['evlog'], exc_modifies=[],
+        ghost_at={'send_multipart': ["evlog = evlog + [pubev(ref_id(self), topic, "
+                                     "msg_int(msg, 'process_pid'), msg_int(msg, 'exit_code'))]"]},
+    ))
+    spec.add(Contract('circus.watcher:Watcher.initialize',
+                      params={'evpub_socket': Ref('PubSocket'), 'sockets': VAL, 'arbiter': Ref('Arbiter')},
+                      ensures=['self.evpub_socket == evpub_socket', 'self.sockets == sockets',
+                               'self.arbiter == arbiter'],
+                      modifies=['self.evpub_socket', 'self.sockets', 'self.arbiter']))
+    spec.add(Contract('circus.watcher:Watcher.status', ret=STR, ensures=['result == self._status'],
+                      modifies=[], inline='self._status'))
+    spec.add(Contract('circus.watcher:Watcher.__len__', ret=INT,
+                      ensures=['result == len(self.processes)'], modifies=[], inline='len(self.processes)'))
+    spec.add(Contract(
+        'circus.watcher:Watcher.__init__', params={'name': VAL, 'cmd': VAL, 'options': Dict(STR, VAL)},
+        trusted=True,
+        ensures=['is_str(name)', 'self.name == as_str(name)', "self._status == 'stopped'",
+                 'len(self.processes) == 0', 'isnull(self.arbiter)', 'isnull(self.evpub_socket)'],
+        raises={'*': []}, modifies=['self.*'], exc_modifies=['self.*'],
+        note='constructor: initialises only the new object (70 lines of option plumbing, not verified); '
+             'any exception for ill-typed arguments'))
